@@ -1,6 +1,7 @@
 import Driver.Util
 import Driver.Ctl
 import Driver.Codec
+import Driver.Ops
 open Lean Driver
 
 def handle (line : String) : Verdict :=
@@ -11,6 +12,7 @@ def handle (line : String) : Verdict :=
     let r : R Verdict :=
       if mode == "ctl" then CtlReplay.replay j
       else if mode == "codec" then CodecReplay.replay j
+      else if mode == "ops" then OpsReplay.replay j
       else .error ("unknown mode " ++ mode)
     match r with
     | .ok v => v
